@@ -7,4 +7,4 @@ Extraction Language OCaml.
 Extraction "model.ml" files_of newhash marshal unmarshal validate validate_store sum_ignored store_get run_ops s_atlas_sum
   run executor_pending execute_n execute_to replay migrate_hash
   format_files validate_tree write_sum_tree tree_sum archive_tree archive_store unarchive
-  checkpoint_files files_from_last_checkpoint.
+  checkpoint_files files_from_last_checkpoint check_dir_url.
